@@ -63,6 +63,92 @@ GetBits(b, mask) == LET z == TrailingZeros(mask) IN (BEValue(b) \div (2 ^ z)) & 
 (***************************************************************************)
 SpHp(N, sp, hp) == 100 * sp + hp = N /\ hp > -100 /\ hp < 100 /\ (N >= 0 => sp >= 0 /\ hp >= 0) /\ (N <= 0 => sp <= 0 /\ hp <= 0)
 
+(***************************************************************************)
+(* Growth beyond the listed properties (DESIGN 3.12): the remaining public *)
+(* helpers of ubxhelpers.py.  Divergences from these are reported as NOTES *)
+(* ("EXT:" verdicts), never as violations: no listed property names them.  *)
+(***************************************************************************)
+Abs(x) == IF x < 0 THEN -x ELSE x
+
+\* val2twoscomp / val2signmag: n is the number the type string carries (used as a BIT count by these two helpers)
+TwosComp(val, n) == ((val % (2 ^ n)) + (2 ^ n)) % (2 ^ n)
+SignMag(val, n) == (Abs(val) % (2 ^ n)) + (IF val < 0 THEN 2 ^ n ELSE 0)
+
+\* escapeall: b'\x01\x02...'
+RECURSIVE EscBytes(_)
+EscBytes(b) == IF b = <<>> THEN "" ELSE "\\x" \o Hex2(Head(b)) \o EscBytes(Tail(b))
+EscapeAll(b) == "b'" \o EscBytes(b) \o "'"
+
+\* Python's repr() of a bytes object
+Printable == " !\"#$%&'()*+,-./0123456789:;<=>?@ABCDEFGHIJKLMNOPQRSTUVWXYZ[\\]^_`abcdefghijklmnopqrstuvwxyz{|}~"
+PyByteChar(c, quote) ==
+    CASE c = 9 -> "\\t" [] c = 10 -> "\\n" [] c = 13 -> "\\r" [] c = 92 -> "\\\\"
+      [] c = quote -> "\\" \o SubSeq(Printable, c - 31, c - 31)
+      [] c >= 32 /\ c <= 126 -> SubSeq(Printable, c - 31, c - 31)
+      [] OTHER -> "\\x" \o Hex2(c)
+RECURSIVE PyBytesBody(_, _)
+PyBytesBody(b, quote) == IF b = <<>> THEN "" ELSE PyByteChar(Head(b), quote) \o PyBytesBody(Tail(b), quote)
+PyBytesRepr(b) ==
+    LET hasS == \E i \in 1..Len(b) : b[i] = 39
+        hasD == \E i \in 1..Len(b) : b[i] = 34
+    IN IF hasS /\ ~hasD THEN "b\"" \o PyBytesBody(b, 34) \o "\""
+       ELSE "b'" \o PyBytesBody(b, 39) \o "'"
+
+\* hextable(raw, cols): rows of 2*cols bytes: "OOO: hhhh hhhh ...  | b'..' |\n"
+Dec3(n) == IF n < 10 THEN "00" \o ToString(n) ELSE IF n < 100 THEN "0" \o ToString(n) ELSE ToString(n)
+RECURSIVE HexOf(_), Spaces(_), Groups(_, _)
+HexOf(b) == IF b = <<>> THEN "" ELSE Hex2(Head(b)) \o HexOf(Tail(b))
+Spaces(n) == IF n <= 0 THEN "" ELSE " " \o Spaces(n - 1)
+Groups(h, k) == IF k = 0 THEN "" ELSE SubSeq(h, 1, 4) \o " " \o Groups(SubSeq(h, 5, Len(h)), k - 1)
+RECURSIVE HexRows(_, _, _)
+HexRows(raw, off, cols) ==
+    IF off >= Len(raw) THEN ""
+    ELSE LET chunk == Slice(raw, off, off + 2 * cols)
+             h == HexOf(chunk) \o Spaces(4 * cols - 2 * Len(chunk))
+         IN Dec3(off) \o ": " \o Groups(h, cols) \o " | " \o PyBytesRepr(chunk) \o " |\n" \o HexRows(raw, off + 2 * cols, cols)
+HexTable(raw, cols) == HexRows(raw, 0, cols)
+
+\* dop2str on hundredths (dop = h / 100)
+Dop2Str(h) == IF h = 100 THEN "Ideal" ELSE IF h <= 200 THEN "Excellent" ELSE IF h <= 500 THEN "Good"
+              ELSE IF h <= 1000 THEN "Moderate" ELSE IF h <= 2000 THEN "Fair" ELSE "Poor"
+
+\* table decode with str(int) fallback (gnss2str, gpsfix2str); tbl = sequence of [k, v]
+Decode(tbl, x) == LET s == {i \in 1..Len(tbl) : tbl[i].k = x}
+                  IN IF s = {} THEN ToString(x) ELSE tbl[CHOOSE i \in s : TRUE].v
+
+\* key_from_val: the FIRST key (insertion order) whose value matches; "" = KeyError
+KeyFromVal(pairs, v) == LET s == {i \in 1..Len(pairs) : pairs[i].v = v}
+                        IN IF s = {} THEN "" ELSE pairs[CHOOSE i \in s : \A j \in s : i <= j].k
+
+\* substring search / replace-all (left to right, non-overlapping) as Python's str.replace does (pattern non-empty)
+StartsAt(s, i, p) == i + Len(p) - 1 <= Len(s) /\ SubSeq(s, i, i + Len(p) - 1) = p
+HasSub(s, p) == \E i \in 1..Len(s) : StartsAt(s, i, p)
+RECURSIVE ReplaceFrom(_, _, _, _)
+ReplaceFrom(s, i, p, r) ==
+    IF i > Len(s) THEN ""
+    ELSE IF StartsAt(s, i, p) THEN r \o ReplaceFrom(s, i + Len(p), p, r)
+    ELSE SubSeq(s, i, i) \o ReplaceFrom(s, i + 1, p, r)
+Replace(s, p, r) == ReplaceFrom(s, 1, p, r)
+
+(***************************************************************************)
+(* process_monver: sw/hw version strings and up to 9 extension strings     *)
+(* (NULs already stripped, ASCII) -> version dictionary.                   *)
+(***************************************************************************)
+GnssTags == <<"GPS", "GLO", "GAL", "BDS", "SBAS", "IMES", "QZSS", "NAVIC">>
+RECURSIVE MonVerFold(_, _, _)
+MonVerFold(exts, i, acc) ==
+    IF i > Len(exts) THEN acc
+    ELSE LET e == exts[i]
+             a1 == IF HasSub(e, "FWVER=") THEN [acc EXCEPT !.fw = Replace(e, "FWVER=", "")] ELSE acc
+             a2 == IF HasSub(e, "PROTVER=") THEN [a1 EXCEPT !.rom = Replace(e, "PROTVER=", "")] ELSE a1
+             a3 == IF HasSub(e, "PROTVER ") THEN [a2 EXCEPT !.rom = Replace(e, "PROTVER ", "")] ELSE a2
+             a4 == IF HasSub(e, "MOD=") THEN [a3 EXCEPT !.hw = Replace(e, "MOD=", "") \o " " \o a3.hw] ELSE a3
+             g  == FoldLeft(LAMBDA acc2, t : IF HasSub(e, t) THEN acc2 \o t \o " " ELSE acc2, a4.gnss, GnssTags)
+         IN MonVerFold(exts, i + 1, [a4 EXCEPT !.gnss = g])
+ProcessMonVer(sw, hw, exts) ==
+    MonVerFold(exts, 1, [sw |-> Replace(Replace(sw, "ROM CORE", "ROM"), "EXT CORE", "Flash"),
+                         hw |-> hw, fw |-> "N/A", rom |-> "N/A", gnss |-> ""])
+
 \* grouped attribute names: base + _ii (+ _jj)
 Idx2(i) == IF i < 10 THEN "_0" \o ToString(i) ELSE "_" \o ToString(i)
 =============================================================================
